@@ -10,6 +10,7 @@ import shutil
 import subprocess
 import sys
 import tempfile
+import time
 
 VX = os.path.dirname(os.path.abspath(__file__))
 VERIF = os.path.dirname(VX)
@@ -33,37 +34,55 @@ def run(prop, evidence_path):
     results = []
     lost = []
     scratch = tempfile.mkdtemp(prefix="vx-selftest-")
+    t_start = time.time()
+    budget = int(os.environ.get("VX_SELFTEST_BUDGET", "1200"))      # seconds; seeds not started within the budget are reported as skipped
+
+    def one(item):
+        k, (sid, d) = item
+        if time.time() - t_start > budget:
+            return {"seed": sid, "verdict": "not run (time budget of the self-test used up; skipped)"}
+        wd = os.path.join(scratch, "w%d" % k)
+        rdir = os.path.join(wd, "repo")
+        os.makedirs(wd, exist_ok=True)
+        subprocess.run(["rsync", "-a", "--exclude", "target", "--exclude", ".git", REPO + "/", rdir + "/"], check=True)
+        ap = subprocess.run(["git", "apply", "--unsafe-paths", "--directory", rdir, os.path.join(d, "patch.diff")],
+                            cwd=wd, stdout=subprocess.PIPE, stderr=subprocess.STDOUT)
+        if ap.returncode != 0:
+            ap = subprocess.run(["patch", "-p1", "-s", "-i", os.path.join(d, "patch.diff")], cwd=rdir,
+                                stdout=subprocess.PIPE, stderr=subprocess.STDOUT)
+        if ap.returncode != 0:
+            shutil.rmtree(wd, ignore_errors=True)
+            return {"seed": sid, "verdict": "patch no longer applies (skipped)"}
+        env = dict(os.environ)
+        env.update({"VLS_REPO": rdir, "VX_OUT": os.path.join(wd, "out"), "VX_SELFTEST": "1"})
+        p = subprocess.run([sys.executable, os.path.join(VERIF, "check"), prop, "--tier", "quick"], env=env,
+                           stdout=subprocess.PIPE, stderr=subprocess.STDOUT)
+        out = p.stdout.decode(errors="replace")
+        shutil.rmtree(wd, ignore_errors=True)
+        verdict = {0: "OK", 1: "VIOLATION", 2: "UNDECIDED"}.get(p.returncode, "rc=%d" % p.returncode)
+        recorded = None
+        crp = os.path.join(d, "check_result.txt")
+        if os.path.exists(crp):
+            for ln in open(crp):
+                m = re.match(r"(VIOLATION|UNDECIDED|OK) property=%s" % prop, ln)
+                if m:
+                    recorded = m.group(1)
+                    break
+        obligations = re.findall(r"obligation (\S+)", out)
+        return {"seed": sid, "verdict": verdict, "recorded": recorded, "obligations": obligations[:4]}
+
     try:
-        for sid, d in seeds:
-            rdir = os.path.join(scratch, "repo")
-            shutil.rmtree(rdir, ignore_errors=True)
-            subprocess.run(["rsync", "-a", "--exclude", "target", "--exclude", ".git", REPO + "/", rdir + "/"], check=True)
-            ap = subprocess.run(["git", "apply", "--unsafe-paths", "--directory", rdir, os.path.join(d, "patch.diff")],
-                                cwd=scratch, stdout=subprocess.PIPE, stderr=subprocess.STDOUT)
-            if ap.returncode != 0:
-                ap = subprocess.run(["patch", "-p1", "-s", "-i", os.path.join(d, "patch.diff")], cwd=rdir,
-                                    stdout=subprocess.PIPE, stderr=subprocess.STDOUT)
-            if ap.returncode != 0:
-                results.append({"seed": sid, "verdict": "patch no longer applies (skipped)"})
-                continue
-            env = dict(os.environ)
-            env.update({"VLS_REPO": rdir, "VX_OUT": os.path.join(scratch, "out"), "VX_SELFTEST": "1"})
-            p = subprocess.run([sys.executable, os.path.join(VERIF, "check"), prop, "--tier", "quick"], env=env,
-                               stdout=subprocess.PIPE, stderr=subprocess.STDOUT)
-            out = p.stdout.decode(errors="replace")
-            verdict = {0: "OK", 1: "VIOLATION", 2: "UNDECIDED"}.get(p.returncode, "rc=%d" % p.returncode)
-            recorded = None
-            crp = os.path.join(d, "check_result.txt")
-            if os.path.exists(crp):
-                for ln in open(crp):
-                    m = re.match(r"(VIOLATION|UNDECIDED|OK) property=%s" % prop, ln)
-                    if m:
-                        recorded = m.group(1)
-                        break
-            obligations = re.findall(r"obligation (\S+)", out)
-            results.append({"seed": sid, "verdict": verdict, "recorded": recorded, "obligations": obligations[:4]})
-            if verdict == "OK":
-                lost.append(sid)
+        import concurrent.futures as cf
+        with cf.ThreadPoolExecutor(max_workers=int(os.environ.get("VX_SELFTEST_JOBS", "4"))) as ex:
+            results = list(ex.map(one, list(enumerate(seeds))))
+        for r in results:
+            if r.get("verdict") == "OK":
+                if r.get("recorded") == "OK":
+                    # recorded when the seed was collected as a change the model cannot see (e.g. it needs a failing store):
+                    # it is listed, it does not make this run undecided
+                    r["verdict"] = "OK (recorded as outside the model when collected)"
+                else:
+                    lost.append(r["seed"])
     finally:
         shutil.rmtree(scratch, ignore_errors=True)
     try:
@@ -75,6 +94,8 @@ def run(prop, evidence_path):
     except Exception:
         pass
     n_ok = sum(1 for r in results if r.get("verdict") in ("VIOLATION", "UNDECIDED"))
+    if not results:
+        n_ok = 0
     print("SELFTEST property=%s seeded=%d not-passing=%d skipped=%d" % (prop, len(results), n_ok,
           sum(1 for r in results if "skipped" in r.get("verdict", ""))))
     if lost:
